@@ -343,6 +343,34 @@ def correspond(ctx, scale):
                     evaluations += len(xs)
                     dist['lfq_forward'] += 1
                     distinct.add(('lfqf', d, sc, sph, ncb))
+    # float64 callers (round 10, seed C04-j): detail far below what float32 can hold (1e-60, 1e-300, float64 subnormals, both signs) next to ordinary
+    # values - whatever precision the layer quantizes in, the index it returns decodes to the code it emitted
+    for d in (1, 2, 3, 5, 8):
+        for sph in (False, True):
+            for ncb in (1, 2):
+                for f32 in (True, False):
+                    try:
+                        q = LFQ(codebook_size=2 ** d, spherical=sph, num_codebooks=ncb, dim=d * ncb, force_quantization_f32=f32).eval()
+                        x = torch.randn(2, 12, d * ncb, dtype=torch.float64)
+                        tiny = [1e-60, -1e-60, 1e-300, -1e-300, 5e-324, -5e-324, 1e-46, -1e-46, 2e-45, -2e-45]
+                        for ti, tv in enumerate(tiny):
+                            x[0, ti % 12, ti % (d * ncb)] = tv
+                        x[1, 0] = torch.tensor(tiny[: d * ncb] * (1 + d * ncb // len(tiny)))[: d * ncb]
+                        q = q.double() if not f32 else q
+                        out, idx, _ = q(x)
+                        evaluations += x.shape[0] * x.shape[1]
+                        dist['lfq_float64_underflow_calls'] = dist.get('lfq_float64_underflow_calls', 0) + 1
+                        if int(idx.min()) < 0 or int(idx.max()) >= 2 ** d:
+                            raise AssertionError('index out of range')
+                        dec_out = q.indices_to_codes(idx)
+                        if not torch.equal(dec_out.double(), out.double()):
+                            bad = (dec_out.double() != out.double()).nonzero()[0].tolist()
+                            raise AssertionError(f'indices_to_codes(indices) != forward output at {bad}: input {float(x[tuple(bad)]):.3e} emitted {float(out[tuple(bad)])} decoded {float(dec_out[tuple(bad)])}')
+                    except AssertionError as ex:
+                        failures.append({'key': f'forward:lfq-float64-underflow:d={d}:spherical={sph}:ncb={ncb}:f32={f32}', 'what': f'LFQ(codebook_size={2 ** d}, spherical={sph}, num_codebooks={ncb}, force_quantization_f32={f32}) on a float64 input: {ex}',
+                                         'case': {'part': 'lfq_float64', 'd': d, 'spherical': sph, 'ncb': ncb}})
+                    except Exception:
+                        dist['lfq_float64_rejected'] = dist.get('lfq_float64_rejected', 0) + 1
     cur, sz, k = [], 0, 0
     for s, c in lfq_cases + [(10 ** 9, None)]:
         if c is None or sz + s > 12000:
